@@ -80,6 +80,10 @@ class C09(conncheck.ConnCheck):
                         'faults': nf, 'cuts': True, 'strict': False, 'max_dev': nf + (1 if app else 0)})
         out.append({'name': 'tls', 'server': SERVER, 'handshake': ['hs-ok'], 'app': [], 'depth': d, 'faults': nf, 'cuts': True, 'strict': False,
                     'url': 'wss://example.com/x', 'max_dev': nf})
+        # lomond's real selector classes (poll / select / kqueue) over a fake `select` module: a reset may be reported without POLLIN
+        for sel in ('poll', 'select', 'kqueue'):
+            out.append({'name': 'selector/' + sel, 'server': SERVER, 'handshake': ['hs-ok'], 'app': [], 'depth': d, 'faults': 1, 'cuts': False,
+                        'strict': False, 'max_dev': 1, 'selector': sel})
         out.append({'name': 'connect-phase', 'server': ['eof', 'text'], 'handshake': ['hs-ok'], 'app': [], 'depth': 1, 'faults': 3, 'cuts': False,
                     'strict': False, 'max_dev': 3, 'only_ops': ['getaddrinfo', 'socket', 'connect', 'sendall']})
         out.append({'name': 'pings', 'server': ['eof', 'ping', 'ping-ping', 'silence'], 'handshake': ['hs-ok'], 'app': [], 'depth': d + 1, 'faults': nf,
@@ -99,6 +103,7 @@ class C09(conncheck.ConnCheck):
         model = self.make_model(ex, cfg)
         world = W.World(model.server, max_waits=40, addrs=[('10.0.0.1', None), ('10.0.0.2', None)])
         world.chooser = ch
+        world.selector_kind = cfg.get('selector', 'fake')
         only = cfg.get('only_ops')
         budget = cfg['faults']
 
